@@ -112,6 +112,7 @@ func harnessC39OwnAndRelayed() {
 	verif_reach("C39/own-and-relayed")
 	toA, nA := c39Delivered(0xA1)
 	if allowSame {
+		verif_assert(!(nA >= 1 && len(ch) >= 1), "C39/one-response-delivered-to-two-requesters")
 		verif_assert(nA == 1 && toA == A, "C39/relayed-answer-consumed-by-own-pending-request")
 	} else {
 		verif_assert(nA == 1 && toA == A, "C39/relayed-answer-misdelivered")
